@@ -546,6 +546,50 @@ def _borrowed(chk):
     chk.info["ownership_sinks_examined"] = n
 
 
+def alias_sites(pm):
+    """(function, statement, target attribute, source attribute): an attribute bound to the container that another
+    attribute of the same object holds (directly or through a local), in any method - the containers are initialised in
+    one method (usually __init__) and aliased in another"""
+    mutable_of: dict[str, set[str]] = {}
+    for cls in pm.classes.values():
+        acc = set()
+        for c in cls.mro:
+            for m in c.methods.values():
+                for st in walk_no_nested(m.node):
+                    if isinstance(st, ast.Assign) and (isinstance(st.value, (ast.Dict, ast.List, ast.Set, ast.DictComp, ast.ListComp)) or (
+                            isinstance(st.value, ast.Call) and isinstance(st.value.func, ast.Name) and st.value.func.id in ("dict", "list", "set"))):
+                        acc |= {t.attr for t in st.targets if is_self_attr(t)}
+        mutable_of[cls.qualname] = acc
+    for fn in pm.all_functions():
+        if fn.cls is None:
+            continue
+        mutable_attrs = mutable_of.get(fn.cls.qualname, set())
+        if not mutable_attrs:
+            continue
+        ff = FuncFacts.of(fn)
+        for st in walk_no_nested(fn.node):
+            if not (isinstance(st, ast.Assign) and any(is_self_attr(t) for t in st.targets)):
+                continue
+            if isinstance(st.value, (ast.Call, ast.Dict, ast.List, ast.Set, ast.Constant, ast.BinOp, ast.DictComp, ast.ListComp)):
+                continue  # a new object (copy(), dict(...), display)
+            srcs = {p.atom.name.split(".", 1)[1] for p in ff.paths(st.value, spine_only=True) if p.atom.kind == "selfattr" and not p.ops}
+            # self.b = self.a right after self.a = {} (provenance would see the display, the object is the same one)
+            v, hops = st.value, 0
+            while isinstance(v, ast.Name) and hops < 4:
+                ds = ff.rd.reaching(v.id, ff.node_of(v) if hops == 0 else ds[0].node)
+                if len(ds) != 1 or ds[0].kind != "assign" or ds[0].index or not isinstance(ds[0].value, ast.expr):
+                    break
+                v, hops = ds[0].value, hops + 1
+            if is_self_attr(v):
+                srcs.add(v.attr)
+            for t in st.targets:
+                if is_self_attr(t):
+                    for a in sorted(srcs):
+                        if a in mutable_attrs and a != t.attr:
+                            yield fn, st, t.attr, a
+                            break
+
+
 def _alias(chk):
     """two attributes of one object must not be bound to the same mutable container (a = b = {}): writing
     the bookkeeping of one role (transform) would change the other (fit)"""
@@ -567,10 +611,9 @@ def _alias(chk):
                 else:
                     for t in selfs:
                         mutable_attrs.add(t.attr)
-        for st in walk_no_nested(fn.node):
-            if isinstance(st, ast.Assign) and len(st.targets) == 1 and is_self_attr(st.targets[0]) and is_self_attr(st.value) \
-                    and st.value.attr in mutable_attrs and st.value.attr != st.targets[0].attr:
-                chk.violation("HIST.alias", fn, st, why=f"self.{st.targets[0].attr} aliases the mutable container self.{st.value.attr}")
+    for fn, st, tattr, src in alias_sites(pm):
+        chk.violation("HIST.alias", fn, st, why=f"self.{tattr} is bound to the very container that self.{src} holds: what is later recorded under one "
+                                                f"name (transform) overwrites what the other remembered (fit)")
     chk.ok("HIST.alias", "xeofs", None, construct=f"<{n} mutable container initialisations examined>", nontrivial=False)
 
 
